@@ -1,7 +1,7 @@
 #!/bin/bash
 # seedtest.sh <patch.diff> <property>...   apply a seeded change to /repo, run the baseline suite and the
 # quick checks of the named properties, undo the change. Prints one summary line per step.
-# Environment: SEED_BUDGET_S (default 40), SEED_TIER (default quick)
+# Environment: SEED_BUDGET_S (default: the tier's own budget), SEED_TIER (default quick)
 set -u
 patch="$(readlink -f "$1")"; shift
 export GOFLAGS=-mod=mod GOPROXY=off GOSUMDB=off GOTOOLCHAIN=local
@@ -14,7 +14,8 @@ git -C /repo apply "$patch" || { echo "PATCH DOES NOT APPLY"; exit 2; }
 ( cd /repo && go build ./... ) > $logdir/$name.build.log 2>&1 || { echo "BUILD FAILS"; exit 2; }
 if ( cd /repo && go test -vet=off -count=1 ./... ) > $logdir/$name.test.log 2>&1; then echo "baseline-suite: pass"; else echo "baseline-suite: FAIL"; fi
 for p in "$@"; do
-  VERIF_BUDGET_S="${SEED_BUDGET_S:-40}" /verif/check "$p" "${SEED_TIER:-quick}" > $logdir/$name.$p.log 2>&1
+  if [ -n "${SEED_BUDGET_S:-}" ]; then export VERIF_BUDGET_S="$SEED_BUDGET_S"; fi
+  /verif/check "$p" "${SEED_TIER:-quick}" > $logdir/$name.$p.log 2>&1
   rc=$?
   echo "check $p: exit=$rc $(grep -c '^VIOLATION' $logdir/$name.$p.log) violation line(s)"
   grep -A1 '^VIOLATION' $logdir/$name.$p.log | grep -v '^VIOLATION\|^--' | cut -c1-260
